@@ -196,6 +196,144 @@ def gen_sibling_finally(rnd):
     return '\n'.join(lines) + '\n'
 
 
+def gen_layered_jumps(rnd):
+    """Jumps with DIFFERENT targets behind the SAME guards.  The function is a stack of layers (try/finally with or
+    without handlers, while / for loops with or without else, if, with) nested 2..6 deep; at every level, before and
+    after the inner layer, there are groups of guarded jumps `if D(k): break | continue | return | raise`.  A break /
+    continue stops at its loop, a return / raise goes on to the function (or a handler), so jumps that share their
+    innermost finally guards have chains of different length whenever another try/finally lies between the loop and
+    the function; statements follow the loops and the try statements, so the target of every chain is a node of its
+    own.  Finally bodies have one or several end nodes (an if inside).
+
+    -> (source, directed decision vectors): one vector per jump site that drives the execution (first iteration of
+    every loop, every earlier guard not taken) to that jump and takes it, so that every jump's whole chain
+    jump -> finally bodies -> target is executed at least once."""
+    k = [0]
+    lines = ['def f(a, b, c):']
+    directed = []
+
+    def K():
+        k[0] += 1
+        return k[0]
+
+    def emit(ind, text):
+        lines.append('    ' * ind + text)
+
+    def jump_group(ind, in_loop, path):
+        """path: decisions consumed so far on the way here; -> path after the group when no jump is taken"""
+        kinds = ['return', 'return', 'raise'] + (['break', 'continue'] * 2 if in_loop else [])
+        for c in rnd.sample(kinds, rnd.randint(1, min(3, len(kinds)))):
+            emit(ind, 'if D(%d):' % K())
+            if c == 'return':
+                emit(ind + 1, 'return T(%d)' % K() if rnd.random() < 0.7 else 'return')
+            elif c == 'raise':
+                emit(ind + 1, 'raise %s()' % rnd.choice(['E0', 'E1']))
+            else:
+                emit(ind + 1, c)
+            directed.append(path + [1])
+            path = path + [0]
+        return path
+
+    def fin_body(ind):
+        emit(ind, 'T(%d)' % K())
+        c = rnd.random()
+        if c < 0.3:
+            emit(ind, 'if D(%d):' % K())
+            emit(ind + 1, 'T(%d)' % K())
+            if rnd.random() < 0.5:
+                emit(ind, 'else:')
+                emit(ind + 1, 'T(%d)' % K())
+        elif c < 0.45:
+            emit(ind, 'T(%d)' % K())
+
+    def layer(ind, depth, in_loop, path, want):
+        """emits one compound statement; want: layer kinds still to be placed (outermost first); -> path behind it
+        on the all-guards-false, loops-run-once execution, or None when that execution does not come back here"""
+        if want:
+            kind = want[0]
+            want = want[1:]
+        else:
+            kind = rnd.choice(['try', 'try', 'try', 'loop', 'loop', 'if', 'with'])
+
+        def inner(ind, in_loop, path):
+            if rnd.random() < 0.5:
+                emit(ind, 'T(%d)' % K())
+            if rnd.random() < (0.9 if depth == 0 else 0.45):
+                path = jump_group(ind, in_loop, path)
+            if depth > 0:
+                path = layer(ind, depth - 1, in_loop, path, want)
+                if rnd.random() < 0.6:
+                    emit(ind, 'T(%d)' % K())       # the statement behind the inner loop / try: a target of its own
+                if rnd.random() < 0.3:
+                    path = jump_group(ind, in_loop, path)
+            emit(ind, 'T(%d)' % K())
+            return path
+
+        if kind == 'try':
+            emit(ind, 'try:')
+            path = inner(ind + 1, in_loop, path)
+            if rnd.random() < 0.3:
+                emit(ind, 'except %s:' % rnd.choice(['E0', 'E1', 'Exception', '(E0, E1)']))
+                emit(ind + 1, 'T(%d)' % K())
+                if rnd.random() < 0.4:
+                    # not on the directed execution (no raise is taken on it): the path is unchanged
+                    emit(ind + 1, 'if D(%d):' % K())
+                    emit(ind + 2, rnd.choice(['return T(%d)' % K()] + (['break', 'continue'] if in_loop else [])))
+                if rnd.random() < 0.3:
+                    emit(ind, 'else:')
+                    emit(ind + 1, 'T(%d)' % K())
+            emit(ind, 'finally:')
+            # a finally body consumes decisions only for its own `if`; on the directed execution they come after
+            # the jump of interest or are recorded here
+            n0 = len(lines)
+            fin_body(ind + 1)
+            if any('if D(' in l for l in lines[n0:]):
+                path = path + [0]
+            return path
+        if kind == 'loop':
+            if rnd.random() < 0.5:
+                emit(ind, 'while D(%d):' % K())
+                path = inner(ind + 1, True, path + [1])
+                path = path + [0]                   # second evaluation of the test: leave the loop
+            else:
+                emit(ind, 'for i%d in L(%d):' % (K(), K()))
+                path = inner(ind + 1, True, path + [1])
+            if rnd.random() < 0.25:
+                emit(ind, 'else:')
+                emit(ind + 1, 'T(%d)' % K())
+                if rnd.random() < 0.4:
+                    path = jump_group(ind + 1, in_loop, path)
+            return path
+        if kind == 'if':
+            emit(ind, 'if D(%d):' % K())
+            path = inner(ind + 1, in_loop, path + [1])
+            if rnd.random() < 0.3:
+                emit(ind, 'else:')
+                emit(ind + 1, 'T(%d)' % K())
+            return path
+        emit(ind, 'with CM(%d):' % K())
+        return inner(ind + 1, in_loop, path)
+
+    depth = rnd.randint(1, 5)
+    # at least: a try/finally around a loop around a try/finally, somewhere in the stack (in this order, other
+    # layers in between), in two programs out of three
+    want = []
+    if rnd.random() < 0.67:
+        must = ['try', 'loop', 'try']
+        depth = max(depth, 2)
+        slots = sorted(rnd.sample(range(depth + 1), 3))
+        want = [None] * (depth + 1)
+        for s, m in zip(slots, must):
+            want[s] = m
+        want = [w or rnd.choice(['try', 'try', 'loop', 'if', 'with']) for w in want]
+    if rnd.random() < 0.4:
+        emit(1, 'T(%d)' % K())
+    layer(1, depth, False, [], want)
+    if rnd.random() < 0.8:
+        emit(1, 'return T(%d)' % K())
+    return '\n'.join(lines) + '\n', directed
+
+
 def decision_vectors(rnd, n):
     out = [[], [1], [1, 0], [0, 1, 1], [1, 1, 0, 1], [2, 1, 0, 2, 1, 0, 1]]
     while len(out) < n:
@@ -246,7 +384,10 @@ def check(run):
     nvec = 6 if quick else 14
     run.rule = ('seeded random functions (tools/gen/progs.py: assign/if/elif/while/for(+else)/break/continue/return/'
                 'raise/try-except-else-finally/with, depth<=4) x decision vectors driving every test, loop trip count and '
-                'the handler each raise reaches; non-trivial = program with a loop, a try or a jump; distinct by source text')
+                'the handler each raise reaches; + layered-jumps stream: stacks of try/finally, loops, if, with 2..6 deep with '
+                'groups of guarded break/continue/return/raise at every level (jumps with different targets behind the same '
+                'finally guards), each jump site driven once by a directed decision vector; '
+                'non-trivial = program with a loop, a try or a jump; distinct by source text')
     vlib.standard_proof_step(run, ['Cfg/SkelCheck.vo'])
     rnd = random.Random(run.seed * 7919 + 5)
     graph_cases = []
@@ -276,10 +417,19 @@ def check(run):
                 text = open(os.path.join(cdir, fnm)).read()
                 first, rest = text.split('\n', 1)
                 corpus.append((rest, eval(first.split(':', 1)[1])))
-    for it in range(nprog + len(corpus)):
+    # the layered-jumps stream comes after the others (and draws its programs from its own generator state), so
+    # that the programs and decision vectors of the older streams do not depend on it
+    nlay = 70 if quick else 700
+    rnd_lay = random.Random(run.seed * 7919 + 6)
+    for it in range(nprog + len(corpus) + nlay):
+        directed = []
         if it < len(corpus):
             src, cdv = corpus[it]
             sname = 'corpus'
+        elif it >= nprog + len(corpus):
+            cdv = None
+            sname = 'layered-jumps'
+            src, directed = gen_layered_jumps(rnd_lay)
         else:
             cdv = None
             sname, opts = rnd.choices(streams, weights)[0]
@@ -314,7 +464,7 @@ def check(run):
             graph_cases.append('(%d, %s, %s, %s, %s)' % (idx, sk.term, skel_mod.coq_edges(edges),
                                                         skel_mod.coq_nats(nodes), skel_mod.coq_nats(errors)))
         # traces
-        for dv in ([cdv] if cdv is not None else []) + decision_vectors(rnd, nvec):
+        for dv in ([cdv] if cdv is not None else []) + directed + decision_vectors(rnd, nvec):
             try:
                 r = run_trace(src, sk, dv)
             except RecursionError:
